@@ -52,6 +52,7 @@ class Stats:
         self.drift_samples = []
         self.tlc_cmds = []
         self.notes = []
+        self.crashes = []         # events on which TLC could not evaluate the specification
         self.exhaustive = False
         self.bounds = {}
 
@@ -118,6 +119,13 @@ def finish(pid: str, tier: str, seed: int, stats: Stats, violations: list, t0: f
            level: str = "model_checking", rule: str = "", assumptions=None) -> int:
     """Classify violations against known findings, write evidence, print the
     verdict lines and return the exit status."""
+    if stats.crashes:
+        # the specification could not be evaluated on some recorded events: a machinery failure - unless
+        # violations were found as well (broken code produces data that breaks the evaluation too)
+        if not violations:
+            raise MachineryError("TLC could not evaluate the specification on recorded events: " + " | ".join(stats.crashes[:3]))
+        print(f"NOTE: {len(stats.crashes)} event(s) could not be evaluated by TLC (first: {stats.crashes[0][:200]}); violations found, reported first")
+        stats.notes.append(f"{len(stats.crashes)} events not evaluated (TLC evaluation error)")
     known = [e for e in load_known() if e.get("property") == pid and e.get("status") == "known"]
     hit = {}
     new = []
